@@ -544,4 +544,43 @@ theorem mat2SO3_ok_iff (detK : Mat3 ℝ → ℝ) (rtol atol : ℝ) (R : Mat3 ℝ
     · simp [h1, h2]
   · simp [h1]
 
+
+/-! ## scaled conversions on arbitrary blocks with positive determinant -/
+
+/-- the scale the code extracts from a block with positive determinant -/
+noncomputable def cbrtOf (d : ℝ) : ℝ := Real.exp (Real.log d / 3)
+
+theorem powThird_pos (d : ℝ) (hd : 0 < d) : powThird d = some (cbrtOf d) := by
+  simp [powThird, hd, cbrtOf]
+
+theorem cbrtOf_pos (d : ℝ) : 0 < cbrtOf d := Real.exp_pos _
+
+/-- normalised blocks the scaled conversions hand to `mat2SO3` when every determinant is positive -/
+theorem scaledRotBatch_pos (detK : Mat3 ℝ → ℝ) (check : Bool) (rtol atol : ℝ) (Rs : List (Mat3 ℝ))
+    (hpos : ∀ R ∈ Rs, 0 < detK R)
+    (hrank : rankTestFails rtol atol (Rs.map fun R => powThird (detK R)) = false) :
+    scaledRotBatch detK check rtol atol Rs =
+      match mat2SO3Batch detK check rtol atol (Rs.map fun R => Mat3.divS R (cbrtOf (detK R))) with
+      | .error e => .error e
+      | .ok qs => .ok (List.zip qs (Rs.map fun R => cbrtOf (detK R))) := by
+  have hss : (Rs.map fun R => powThird (detK R)) = Rs.map (fun R => some (cbrtOf (detK R))) := by
+    apply List.map_congr_left; intro R hR; exact powThird_pos _ (hpos R hR)
+  have huse : (Rs.map (fun R => some (cbrtOf (detK R)))).all (fun s => (scaleUsable s).isSome) = true := by
+    apply List.all_eq_true.mpr; intro s hs
+    obtain ⟨R, hR, rfl⟩ := List.mem_map.mp hs
+    simp [scaleUsable, cbrtOf_pos]
+  have hvs : (Rs.map (fun R => some (cbrtOf (detK R)))).map (fun s => (scaleUsable s).getD (k 1))
+      = Rs.map (fun R => cbrtOf (detK R)) := by
+    rw [List.map_map]; apply List.map_congr_left; intro R hR
+    simp [scaleUsable, cbrtOf_pos]
+  have hQs : List.zipWith (fun R v => Mat3.divS R v) Rs (Rs.map (fun R => cbrtOf (detK R)))
+      = Rs.map (fun R => Mat3.divS R (cbrtOf (detK R))) := by
+    rw [List.zipWith_map_right, List.zipWith_self]
+  unfold scaledRotBatch
+  rw [hss] at hrank
+  simp only [hss, hrank, huse, hvs, hQs, Bool.false_eq_true, if_false, if_true]
+  generalize mat2SO3Batch detK check rtol atol _ = res
+  cases res <;> rfl
+
+
 end PP
